@@ -10,7 +10,7 @@ from mc import core, exact, topo
 
 ID = 'C04'
 LEVEL = 'model_checking'
-RULE = ('state = (spec, market, period); all specs within the deviation bound in the families single / federated / two zones '
+RULE = ('state = (spec, declaration order in {canonical, reversed}, market, period); all specs within the deviation bound in the families single / federated / two zones '
         '(incl. goods markets with a second supplier from another region or another currency, money market with defaulted and '
         'explicit holders and a non-default code, one or two interest-bearing assets with portfolio weights); oracles (exact): '
         'DEM_m == sum of the demanders demands, SUP_m == DEM_m, sum of supplier assignments == SUP_m, every supplier\'s own '
@@ -29,7 +29,31 @@ BOUNDS = {
 def units(tier):
     out = []
     for fam, labels, spec in topo.all_specs(BOUNDS[tier]):
-        out.append({'family': fam, 'labels': labels, 'spec': spec})
+        out.append({'family': fam, 'labels': labels, 'spec': spec, 'order': 'canonical'})
+        # the same economy declared back to front (dependencies respected): holders before issuers, markets before participants
+        out.append({'family': fam, 'labels': labels + ['declared-in-reverse'], 'spec': spec, 'order': 'reverse'})
+    return out
+
+
+def reverse_order(spec):
+    out = {}
+    for c in spec['countries']:
+        decls = topo.declarations(c)
+        ids = [d[0] for d in decls]
+        deps = dict(decls)
+        rev = list(reversed(ids))
+        changed = True
+        while changed:
+            changed = False
+            pos = dict((x, i) for i, x in enumerate(rev))
+            for d in ids:
+                for a in deps[d]:
+                    if pos[a] > pos[d]:
+                        rev.remove(a)
+                        rev.insert(rev.index(d), a)
+                        changed = True
+                        pos = dict((x, i) for i, x in enumerate(rev))
+        out[c['code']] = rev
     return out
 
 
@@ -77,10 +101,10 @@ class Getter(object):
         return None
 
 
-def check_spec(spec, labels):
+def check_spec(spec, labels, order='canonical'):
     H = spec.get('horizon', 3)
-    case = {'spec': spec, 'labels': labels}
-    r = topo.run(spec)
+    case = {'spec': spec, 'labels': labels, 'order': order}
+    r = topo.run(spec, order=reverse_order(spec) if order == 'reverse' else None)
     if r.stage == 'build' or (r.error is not None and type(r.error).__name__ != 'ConvergenceError'):
         return 'error:%s:%s' % (r.stage, type(r.error).__name__), 0, [], 0
     em = exact.ExactModel(r.text)
@@ -244,8 +268,8 @@ def check_spec(spec, labels):
 def run_unit(unit, tier):
     res = core.new_result()
     dig = core.Digest()
-    dig.add(topo.canon(unit['spec']))
-    outcome, nturn, viols, nmarkets = check_spec(unit['spec'], unit['labels'])
+    dig.add((topo.canon(unit['spec']), unit.get('order')))
+    outcome, nturn, viols, nmarkets = check_spec(unit['spec'], unit['labels'], unit.get('order', 'canonical'))
     H = unit['spec'].get('horizon', 3)
     res['evaluations'] = 1
     res['states'] = nmarkets * (H + 1)
@@ -269,4 +293,4 @@ def run_unit(unit, tier):
 
 
 def replay(case):
-    return check_spec(case['spec'], case.get('labels', []))[2][:1]
+    return check_spec(case['spec'], case.get('labels', []), case.get('order', 'canonical'))[2][:1]
